@@ -139,7 +139,7 @@ class QGen:
             elif r < 0.8 and (s or l):
                 sel.append(('chain', a, rng.choice(s + l)))
             else:
-                sel.append(('str', lit(rng.choice(['hello', 'a"q', 'x, y', 'SELECT', '', 'dir\\', 'wide   gap', 'q\\"  x', '100% sure', '%d', 'a%', '%!s(x)', 'tab\there', '{0}']))))
+                sel.append(('str', lit(rng.choice(['hello', 'a"q', 'x, y', 'SELECT', '', 'dir\\', 'wide   gap', 'q\\"  x', '100% sure', '%d', 'a%', '%!s(x)', 'tab\there', '{0}', '10\u00a0km', 'wide\u3000gap', 'thin\u2009sp', 'nel\u0085x', 'ls\u2028x', 'zw\u200bx', 'bom\ufeffx', 'Kapı', 'e\u0301']))))
         return dict(preds=preds, frm=frm, where=w, select=sel)
 
 
